@@ -15,6 +15,7 @@ RULE = ("binary trees on 4..12 tips (thorough: up to 24), unrooted (root of degr
         "proposal object inside the callback with a dump after every operation; kept-object cases only collect the proposal "
         "objects in the callback and use them after Rearrange has returned, in enumeration order, in a shuffled order, and in "
         "order then shuffled again (every object used twice), with A U or A U A U; non-trivial = at least one proposal; "
+        "multifurcating trees (outside the property: correspondence and the per-proposal clauses only, tag nonbinary); "
         "distinct = distinct case text")
 TRUSTED = ["tree built through NewNode/NewEdge + verif hooks (exact neighbour order); dump through Neigh()/Edges()/Left()/Right() "
            "with a pointer-level audit (symmetric adjacency, branches oriented away from the root)"]
@@ -120,6 +121,15 @@ def gen(rng, tier):
         t = g.decorate(sh, lenmode=rng.choice(["all", "all", "mixed", "none"]), supmode=rng.choice(["mixed", "all", "none"]),
                        inner_names=rng.random() < 0.3, comments=rng.random() < 0.3, up_random=rng.random() < 0.85)
         add(t, "random")
+    # outside the property: multifurcations (branches with an end of degree > 3 get no proposal)
+    for _ in range({"quick": 40, "thorough": 800, "search": 60}[tier]):
+        t = g.tree(lo=5, hi=12, maxdeg=rng.choice([3, 4, 5]), rooted=rng.random() < 0.3,
+                   lenmode=rng.choice(["all", "mixed"]), supmode="mixed", inner_names=rng.random() < 0.2,
+                   comments=rng.random() < 0.2, up_random=rng.random() < 0.8)
+        if all(len(x["slots"]) in (1, 3) for x in preorder(t) if x is not t) and len(t["slots"]) in (2, 3):
+            continue
+        m = meta_of(t, "multifurcating")
+        out.append({"sx": sx({"tree": T(t)}), "meta": m})
     # sequences: the same rearranger value for several trees
     def rnd_tree(ntips=None, rooted=None):
         ntips = ntips or rng.randint(4, 10)
